@@ -11,6 +11,8 @@ CONSTANTS
   Grace = 2
   StaleFirstRead = TRUE
   InFlight = TRUE
+  StampSteps = {1}
+  CrossCodeOpen = TRUE
   MaxEvents = 5
   MaxMsgs = 2
 CONSTRAINT Bound
